@@ -81,12 +81,12 @@ def _callable_candidates(ctx, fi, pname):
     return res
 
 
-def encodable(ctx: Ctx, e, fi, san, tn, depth=0, assume=frozenset()):
+def encodable(ctx: Ctx, e, fi, san, tn, depth=0, assume=frozenset(), deny=frozenset()):
     """True when expression e is text that encodes whatever the program's values are: constants, numbers, type names,
     text that does not derive from the program's values (configuration), results of the sanitiser, formats, slices and
     pure rearrangements of such pieces."""
     t = ctx.types
-    rec = lambda x, f=fi, a=assume: encodable(ctx, x, f, san, tn, depth + 1, a)      # noqa: E731
+    rec = lambda x, f=fi, a=assume: encodable(ctx, x, f, san, tn, depth + 1, a, deny)      # noqa: E731
     if e is None or depth > 8:
         return False
     if isinstance(e, ast.Constant):
@@ -122,7 +122,7 @@ def encodable(ctx: Ctx, e, fi, san, tn, depth=0, assume=frozenset()):
                 b = t.bind_args(g, e)
                 good = frozenset(pn for pn, a in b.items() if rec(a))
                 for r in t.nodes_in(g, ast.Return):
-                    ok = ok and r.value is not None and encodable(ctx, r.value, g, san, tn, depth + 1, good)
+                    ok = ok and r.value is not None and encodable(ctx, r.value, g, san, tn, depth + 1, good, frozenset(b) - good)
             return ok
         if isinstance(e.func, ast.Name) and any(k == "param" for k, _ in t.local_bindings(fi, e.func.id)):
             cands = _callable_candidates(ctx, fi, e.func.id)
@@ -133,17 +133,19 @@ def encodable(ctx: Ctx, e, fi, san, tn, depth=0, assume=frozenset()):
                 if kind == "lambda":
                     names = [a.arg for a in c.args.args]
                     good = frozenset(n for n, o in zip(names, okargs) if o)
-                    if not encodable(ctx, c.body, owner, san, tn, depth + 1, good):
+                    if not encodable(ctx, c.body, owner, san, tn, depth + 1, good, frozenset(names) - good):
                         return False
                 else:
                     good = frozenset(n for n, o in zip(c.params, okargs) if o)
-                    if not all(r.value is not None and encodable(ctx, r.value, c, san, tn, depth + 1, good) for r in t.nodes_in(c, ast.Return)):
+                    if not all(r.value is not None and encodable(ctx, r.value, c, san, tn, depth + 1, good, frozenset(c.params) - good) for r in t.nodes_in(c, ast.Return)):
                         return False
             return True
         return not tn.tainted(e, fi)
     if isinstance(e, ast.Name):
         if e.id in assume:
             return True
+        if e.id in deny:
+            return False
         bs = [(k, b) for k, b in t.local_bindings(fi, e.id)]
         if any(k == "except" for k, _ in bs):
             return False      # the text of an exception the program's code raised
